@@ -625,6 +625,53 @@ func runC11(r *core.Run) {
 			return core.Outcome{Class: fmt.Sprintf("accepted=%d errors=%d", pr.accepted, pr.errors), Nontrivial: true}
 		})
 
+	tagTexts := []string{}
+	for _, v := range []string{"0", "-0", "1", ".5", "5.", "+5", "1E5", "1e-5", "0.1", "0.1234567890123456789", "0.123456789", "16777217", "3.4028236e38", "1e40", "-2.5e-50", "5e-324", "2.2250738585072014e-308",
+		"1.7976931348623157e308", "1e400", "NaN", "nan", "Inf", "+Inf", "-inf", "infinity", "0x1p-2", "0x1.8p1", "1_0", "1e", "e1", "", " 1", "1 ", "123456789.125", "9007199254740993"} {
+		tagTexts = append(tagTexts, "ZF:f:"+v)
+	}
+	for _, v := range []string{"0", "-0", "+7", "007", "9223372036854775807", "-9223372036854775808", "9223372036854775808", "1e3", "0x10", "1_000", " 1", ""} {
+		tagTexts = append(tagTexts, "ZI:i:"+v)
+	}
+	for _, v := range []string{"", "00", "ff", "FF", "aB", "0", "0g", "00ff7f80", " 00"} {
+		tagTexts = append(tagTexts, "ZH:H:"+v)
+	}
+	for b := 0; b < 256; b++ {
+		if b != '\t' && b != '\n' && b != '\r' {
+			tagTexts = append(tagTexts, "ZA:A:"+string([]byte{byte(b)}), "ZZ:Z:a"+string([]byte{byte(b)})+"c", "ZB:B:"+string([]byte{byte(b)}))
+		}
+	}
+	r.Bound("sam-tag-values", fmt.Sprintf("%d tag texts on a valid line, alone and in every ordered pair with 12 others: f values with up to 19 digits, above 2^24, outside float32 range, subnormal, hex floats, Inf/NaN spellings, malformed; i extremes and malformed; H upper/lower/odd; every byte as A value, inside a Z value and as B value", len(tagTexts)))
+	core.Clause(r, "sam-tag-values", core.Opts{Rule: "typed tag values as text (what only a parser sees): no panic; every accepted record is a fixed point of write->read (so values must survive with full precision); non-trivial = all"},
+		func(emit func(c11Line) bool) {
+			base := core.SS("q", "0", "r", "1", "9", "1M", "*", "0", "0", "A", "I")
+			for _, t := range tagTexts {
+				if !emit(c11Line{append(append([]core.S{}, base...), core.S(t))}) {
+					return
+				}
+			}
+			for i := 0; i < len(tagTexts); i++ {
+				for j := 0; j < 12; j++ {
+					o := tagTexts[(i*7+j*13)%len(tagTexts)]
+					if !emit(c11Line{append(append([]core.S{}, base...), core.S(tagTexts[i]), core.S(o))}) {
+						return
+					}
+				}
+			}
+		},
+		func(c c11Line) core.Outcome {
+			parts := make([]string, len(c.Fields))
+			for i, f := range c.Fields {
+				parts[i] = string(f)
+			}
+			line := strings.Join(parts, "\t") + "\n"
+			pr := runSAM([]byte(line))
+			if pr.fail != "" {
+				return core.Failf("sam decoder on %q: %s", line, pr.fail)
+			}
+			return core.Outcome{Class: fmt.Sprintf("accepted=%d errors=%d", pr.accepted, pr.errors), Nontrivial: true}
+		})
+
 	pool := samValidPool()
 	menu := corruptionMenu()
 	maxLines := core.Pick(r, 3, 4)
